@@ -1127,6 +1127,225 @@ def run_histories(chk, tier: str, procs: int) -> None:
 
 
 # ---------------------------------------------------------------------------------------
+# kind tests under static namespace contexts; treat as observed through consumers / entry points
+
+NS_XML = '<r xmlns:p="urn:x"><e a="1" p:b="2"/><p:e/></r>'
+NS_ITEM_PATH = {('element', '', 'e'): '$d/r/e', ('element', 'urn:x', 'e'): '$d/r/p:e',
+                ('attribute', '', 'a'): '$d/r/e/@a', ('attribute', 'urn:x', 'b'): '$d/r/e/@p:b'}
+_ns_env = None
+
+
+def ns_env():
+    global _ns_env
+    if _ns_env is None:
+        e = env()
+        import xml.etree.ElementTree as ET
+        from elementpath import get_node_tree, XPathContext
+        doc = get_node_tree(ET.ElementTree(ET.fromstring(NS_XML)), namespaces={'p': 'urn:x'})
+        items = {}
+        for key, path in NS_ITEM_PATH.items():
+            tok = e.parsers['3.1'](namespaces={'p': 'urn:x'}).parse(path)
+            r = tok.evaluate(XPathContext(root=doc, variables={'d': doc}))
+            if not isinstance(r, list) or len(r) != 1:
+                raise tla.MachineryError(f'namespace document: {path} selects {r!r}')
+            items[key] = r[0]
+        _ns_env = (doc, items)
+    return _ns_env
+
+
+def eval_ns(case: dict) -> str:
+    e = env()
+    doc, items = ns_env()
+    v = items[tuple(case['item'])]
+    namespaces = {'p': 'urn:x'}
+    if case['dns']:
+        namespaces[''] = case['dns']
+    P = e.parsers[case['parser']]
+    variables = {'v': v, 'd': doc}
+    form = case['form']
+
+    def run_expr(expr):
+        if form == 'select':
+            return e.ep.select(None, expr, namespaces=namespaces, parser=P, item=1, variables=variables)
+        if form == 'doc':
+            return e.ep.select(doc, expr, namespaces=namespaces, parser=P, variables=variables)
+        from elementpath import XPathContext
+        return P(namespaces=namespaces).parse(expr).evaluate(XPathContext(root=doc, variables=variables))
+    out = guarded(lambda: run_expr(case['expr']))
+    if out[0] == 'value':
+        r = out[1]
+        if isinstance(r, list) and len(r) == 1:
+            r = r[0]
+        if case['op'] == 'instance':
+            return 'true' if r is True else 'false' if r is False else f'other:{type(r).__name__}'
+        base = run_expr('$v')       # the operand alone through the same result formatter
+        if isinstance(base, list) and len(base) == 1:
+            base = base[0]
+        return 'same' if r is base else 'changed'
+    if out[0] == 'err':
+        return 'err:' + out[1]
+    return ':'.join(out)
+
+
+def ns_worker(job):
+    fails, n = [], 0
+    for case, feat, expected in job:
+        obs = eval_ns(case)
+        n += 1
+        if obs != expected:
+            verdict = {'true': 'match', 'same': 'match', 'false': 'nomatch', 'err:XPDY0050': 'nomatch'}
+            fails.append((dict(feat, expected=expected, observed=obs, obs_verdict=verdict.get(obs, obs)), case, expected, obs))
+    return n, fails
+
+
+def run_static_ns(chk, tier: str, procs: int) -> None:
+    wd = os.path.join(chk.scratch, 'ns')
+    dot = os.path.join(wd, 'g.dot')
+    cfg = tla.cfg_text(dict(TIERS[tier], MaxDepth=1), spec=None, init='NsInit', next_='StutterNext', invariants=['NsLaw'])
+    r = tla.require_ok(tla.run_tlc('SeqTypes', cfg, wd, dump_dot=dot, workers=4), 'SeqTypes/NsInit', min_distinct=500)
+    chk.model(f'SeqTypes-staticns/{tier}', r)
+    items, dns, kinds, names, tys, ops = printed(r.output, 'nsuniverse')[0]
+    g = tla.load_dot(dot)
+    os.remove(dot)
+    cases = []
+    n_dns_unprefixed_attr = 0
+    for st in g.states.values():
+        a = st['acc']
+        x, kind, nm = items[a['x'] - 1], kinds[a['k'] - 1], names[a['n'] - 1]
+        ty = tys[kind][a['ty'] - 1]
+        op = ops[a['o'] - 1]
+        d = dns[a['d'] - 1]
+        ntext = ('p:' if nm['p'] else '') + nm['l']
+        if nm['l'] == '*' and nm['p']:
+            continue
+        kt = f'{kind}({ntext})' if ty == '*' else f'{kind}({ntext}, xs:{ty})'
+        expected = {'XPDY0050': 'err:XPDY0050'}.get(a['out'], a['out'])
+        item = (x['nk'], x['name']['ns'], x['name']['local'])
+        tfamily = kind + ('' if nm['l'] == '*' else ':name') + ('' if ty == '*' else ':type')
+        verdict = {'true': 'match', 'same': 'match', 'false': 'nomatch', 'err:XPDY0050': 'nomatch'}
+        feat = dict(op=op, api='select', family='staticns', tfamily=tfamily, targ=ty if ty != '*' else None,
+                    prefixed=bool(nm['p']), vkind='node:' + x['nk'], item_ns=bool(x['name']['ns']),
+                    default_ns={'': 'none', 'urn:x': 'same-as-prefix', 'urn:y': 'other'}[d],
+                    exp_verdict=verdict[expected])
+        if kind == 'attribute' and d and not nm['p'] and nm['l'] != '*' and x['nk'] == 'attribute':
+            n_dns_unprefixed_attr += 1
+        forms = [('select', '3.1'), ('evaluate', '3.1'), ('select', '2.0')] + \
+                ([('doc', '3.0'), ('evaluate', '2.0')] if tier == 'thorough' else [])
+        for form, parser in forms:
+            expr = f"$v {'instance of' if op == 'instance' else 'treat as'} {kt}"
+            cases.append((dict(kind='staticns', item=list(item), dns=d, expr=expr, op=op, form=form, parser=parser),
+                          dict(feat, form=form, parser=parser), expected))
+    if not n_dns_unprefixed_attr:
+        raise tla.MachineryError('static namespace family: no unprefixed attribute test under a default namespace (vacuous)')
+    for n, fails in core.pool_map(ns_worker, core.chunked(cases, 2 * procs), procs=procs):
+        chk.add('evaluations', n)
+        for feat, case, exp, obs in fails:
+            chk.fail(feat, case, exp, obs, what=f"{case['expr']} (item {case['item']}, default namespace {case['dns']!r})")
+    chk.add('traces_validated_against_impl', len(g.states))
+    chk.coverage['static_namespace_contexts'] = dict(judgements=len(g.states), evaluations=len(cases),
+                                                     unprefixed_attribute_tests_under_default_ns=n_dns_unprefixed_attr)
+    print(f'  static namespaces: states={r.distinct} evaluations={len(cases)} tlc={r.wall_s:.1f}s', flush=True)
+
+
+CONSUMER_TEXT = {'all': '%s', 'exists': 'exists(%s)', 'empty': 'empty(%s)', 'head': 'head(%s)', 'first': '(%s)[1]',
+                 'some': 'some $q in %s satisfies true()', 'every': 'every $q in %s satisfies false()',
+                 'sub1': 'subsequence(%s, 1, 1)', 'ebv': 'boolean(%s)', 'not': 'not(%s)', 'if': 'if (%s) then 1 else 2'}
+
+
+def _consume_run(e, expr: str, parser: str, entry: str, variables: dict):
+    from elementpath import XPathContext, Selector, iter_select
+    P = e.parsers[parser]
+    if entry == 'select':
+        return e.ep.select(e.doc, expr, parser=P, variables=variables)
+    if entry == 'selector':
+        return Selector(expr, parser=P, variables=variables).select(e.doc)
+    if entry == 'evaluate':
+        return P().parse(expr).evaluate(XPathContext(root=e.doc, variables=variables))
+    if entry == 'tselect':
+        return list(P().parse(expr).select(XPathContext(root=e.doc, variables=variables)))
+    if entry == 'iter1':        # the caller pulls the first item only
+        for x in iter_select(e.doc, expr, parser=P, variables=variables):
+            return [x]
+        return []
+    raise tla.MachineryError(entry)
+
+
+def eval_consume(case: dict) -> str:
+    e = env()
+    variables = {'d': e.doc}
+    out = guarded(lambda: _consume_run(e, case['expr'], case['parser'], case['entry'], variables))
+    if out[0] == 'value':
+        base = guarded(lambda: _consume_run(e, case['base'], case['parser'], case['entry'], variables))
+        if base[0] != 'value':
+            return 'unobservable'
+        return 'same' if same_value(out[1], base[1], True) else 'changed'
+    if out[0] == 'err':
+        return 'err:' + out[1]
+    return ':'.join(out)
+
+
+def consume_worker(job):
+    fails, n = [], 0
+    for case, feat, expected in job:
+        obs = eval_consume(case)
+        n += 1
+        if obs == 'unobservable':
+            continue
+        if obs != expected:
+            fails.append((None, case, expected, obs))
+    return n, fails
+
+
+def run_consumers(chk, tier: str, procs: int) -> None:
+    wd = os.path.join(chk.scratch, 'consume')
+    dot = os.path.join(wd, 'g.dot')
+    cfg = tla.cfg_text(dict(TIERS[tier], MaxDepth=1), spec=None, init='CInit', next_='StutterNext',
+                       invariants=['ConsumerFree'])
+    r = tla.require_ok(tla.run_tlc('SeqTypes', cfg, wd, dump_dot=dot, workers=8), 'SeqTypes/CInit', min_distinct=5000)
+    chk.model(f'SeqTypes-consumers/{tier}', r)
+    types = printed(r.output, 'types')[0]
+    values = printed(r.output, 'values')[0]
+    consumers, entries = printed(r.output, 'consumers')[0]
+    g = tla.load_dot(dot)
+    os.remove(dot)
+    cases = []
+    n_late = 0
+    for s in g.states.values():
+        a = s['acc']
+        st, v = types[a['t'] - 1], values[a['v'] - 1]
+        c, entry = consumers[a['c'] - 1], entries[a['e'] - 1]
+        lo = max(type_minver(st), value_minver(v), '3.0' if c == 'head' else '2.0')
+        vtext = value_text(v) if len(v) != 1 else f'({value_text(v)})'
+        if len(v) == 0:
+            vtext = '()'
+        ttext = type_text(st)
+        expr = CONSUMER_TEXT[c] % f'({vtext} treat as {ttext})'
+        base = CONSUMER_TEXT[c] % vtext
+        expected = {'XPDY0050': 'err:XPDY0050'}.get(a['out'], a['out'])
+        late = a['out'] == 'XPDY0050' and len(v) > 1
+        feat = None          # built on failure (features_of vocabulary, so that the known classes of binding A apply)
+        if late and c != 'all':
+            n_late += 1
+        parsers = ['3.1'] + ([lo] if lo != '3.1' and (tier == 'thorough' or (a['v'] + a['t']) % 3 == 0) else [])
+        for parser in parsers:
+            cases.append((dict(kind='consume', expr=expr, base=base, parser=parser, entry=entry, consumer=c, late=late,
+                               vi=a['v'], ti=a['t']), None, expected))
+    if not n_late:
+        raise tla.MachineryError('consumer family: no multi-item non-matching operand under a short-circuiting consumer')
+    for n, fails in core.pool_map(consume_worker, core.chunked(cases, 4 * procs), procs=procs):
+        chk.add('evaluations', n)
+        for feat, case, exp, obs in fails:
+            pseudo = dict(op='treat', api='select', spelling='min', srckind='lit', parser=case['parser'], ctx='doc')
+            feat = dict(features_of(pseudo, types[case['ti'] - 1], values[case['vi'] - 1], exp, obs),
+                        consumer=case['consumer'], entry=case['entry'], late=case['late'])
+            chk.fail(feat, case, exp, obs, what=f"{case['expr']} via {case['entry']} ({case['parser']})")
+    chk.add('traces_validated_against_impl', len(g.states))
+    chk.coverage['treat_through_consumers'] = dict(judgements=len(g.states), evaluations=len(cases),
+                                                   multi_item_failures_under_short_circuit=n_late)
+    print(f'  consumers: states={r.distinct} evaluations={len(cases)} tlc={r.wall_s:.1f}s', flush=True)
+
+
+# ---------------------------------------------------------------------------------------
 
 def tlc_constants(module: str, text: str, wd: str, tier: str, init: str, nxt: str, what: str,
                   spec_snapshot: str | None = None):
@@ -1159,6 +1378,10 @@ def replay(rec: dict) -> int:
         obs = replay_call(case)
     elif kind == 'history':
         obs = eval_history(case['expr'], case['parser'])
+    elif kind == 'staticns':
+        obs = eval_ns(case)
+    elif kind == 'consume':
+        obs = eval_consume(case)
     else:
         raise tla.MachineryError(f'unknown replay kind {kind}')
     print('observed :', obs)
@@ -1223,6 +1446,10 @@ def run(chk: core.Check) -> None:
         '"treat as returns V unchanged" is observed as equality with the operand alone through the same result '
         'formatter of select()',
     ]
+    if os.environ.get('C18_ONLY') == 'ext':        # development aid: the two extension families alone
+        run_static_ns(chk, tier, procs)
+        run_consumers(chk, tier, procs)
+        return
     # ---- 1. the specification: laws, graph, universe ------------------------------------
     wd = os.path.join(chk.scratch, 'spec')
     dot = os.path.join(wd, 'g.dot')
@@ -1454,12 +1681,18 @@ def run(chk: core.Check) -> None:
 
     # ---- 5. histories of judgements on derived function items ---------------------------
     run_histories(chk, tier, procs)
+    # ---- 6. kind tests under static namespace contexts; treat as through consumers --------
+    run_static_ns(chk, tier, procs)
+    run_consumers(chk, tier, procs)
     chk.coverage['exhaustive'] = True
     chk.coverage['rule'] = (
         'every edge of the TLC graph of SeqTypes (value x sequence type x {instance of, treat as}, chains of 2) is one '
         'case, replayed in several type spellings / operand spellings / parsers / APIs; every ordered pair of types and '
         'every (value, type) of the universe is exported for the laws; every exported signature inside the universe is '
         'called with TLC-chosen arguments (all parser versions, several concrete variants per argument); every state of '
-        'FnItemHist (judgements on a function item and its partial applications within one evaluation) is one expression.  '
+        'FnItemHist (judgements on a function item and its partial applications within one evaluation) is one expression; '
+        'every initial state of NsInit (item x default element namespace x element/attribute test with prefixed / unprefixed '
+        'name and type argument x operator) and of CInit (value x type x consumer of the treat expression x entry point; '
+        'entry point rotated in quick) is one expression.  '
         'distinct_nontrivial = distinct (operand, type, operator) with a non-empty '
         'operand and an item type other than item()/empty-sequence()')
